@@ -1,6 +1,7 @@
 SPECIFICATION Spec
 CONSTANTS
   MaxItems = 2
+  PtrOnly = FALSE
   SetSrcOn = {1, 3}
 VIEW View
 INVARIANTS EmitState
